@@ -25,16 +25,16 @@ Proof. intros. unfold spec_handle. destruct (key_bytes t d); reflexivity. Qed.
 
 (* the maximum-size computation is an upper bound of every well-formed key *)
 Theorem C12_max_size_bounds_every_key :
-  forall t d b, key_type_ok t = true -> key_ids_unique t = true -> key_ok t d = true ->
+  forall t d b, key_type_ok t = true -> key_ok t d = true ->
     key_max_le16 t = true -> key_bytes t d = Ok b -> len b <= 16.
-Proof. exact key_max_le16_sound. Qed.
+Proof. exact key_max_le16_sound'. Qed.
 
 (* the handle follows 7.6.8 outside the class where the actual length and the maximum
    length fall on different sides of 16 *)
 Theorem C12_handle_follows_rule_outside_short_of_long :
-  forall t d, key_type_ok t = true -> key_ids_unique t = true -> key_ok t d = true ->
+  forall t d, key_type_ok t = true -> key_ok t d = true ->
     short_of_long t d = false -> instance_handle t d = spec_handle t d.
-Proof. exact spec_handle_outside_class. Qed.
+Proof. exact spec_handle_outside_class'. Qed.
 
 (* inside that class the rule is violated: struct { @key string name } with name = "ab" is
    zero-padded instead of hashed (recorded finding C12-actual-length) *)
